@@ -38,7 +38,114 @@ def _class_fn(ci, name):
     return f.node
 
 
+_DW_NAMES = {'groups': 'groups', 'in_channels': 'in', 'out_channels': 'out'}
+
+
+def _dw_operand(e: ast.AST, alias):
+    if isinstance(e, ast.Attribute) and e.attr in _DW_NAMES:
+        return _DW_NAMES[e.attr]
+    if isinstance(e, ast.Subscript) and isinstance(e.slice, ast.Constant) and \
+            e.slice.value in _DW_NAMES:
+        return _DW_NAMES[e.slice.value]
+    if isinstance(e, ast.Name) and e.id in alias:
+        return _dw_operand(alias[e.id], {})
+    return None
+
+
+def dw_normal_form(e: ast.AST, alias=None):
+    """(partition of {in, out, groups} induced by the == atoms of a conjunction, other atoms)"""
+    alias = alias or {}
+    atoms = []
+
+    def flat(x):
+        if isinstance(x, ast.BoolOp) and isinstance(x.op, ast.And):
+            for v in x.values:
+                flat(v)
+        else:
+            atoms.append(x)
+    flat(e)
+    parent = {k: k for k in ('in', 'out', 'groups')}
+
+    def find(a):
+        while parent[a] != a:
+            a = parent[a]
+        return a
+    extras = []
+    for a in atoms:
+        if isinstance(a, ast.Compare) and all(isinstance(o, ast.Eq) for o in a.ops):
+            ops = [_dw_operand(x, alias) for x in [a.left] + list(a.comparators)]
+            if all(o is not None for o in ops):
+                for x, y in zip(ops, ops[1:]):
+                    parent[find(x)] = find(y)
+                continue
+        extras.append(ast.unparse(a))
+    classes = {}
+    for k in parent:
+        classes.setdefault(find(k), set()).add(k)
+    return frozenset(frozenset(v) for v in classes.values()), tuple(sorted(extras))
+
+
+def r15d(ctx):
+    """The depthwise pattern is one concept with one definition: the constraint of
+    cost/pattern.py (what 'the layer satisfies the depthwise pattern' means for the lookup)
+    agrees with every other depthwise test of the library (graph classification, layer
+    constructors, export) — in_channels == out_channels == groups and nothing else — and reads
+    only the spec it is given."""
+    repo = ctx.repo
+    full = (frozenset([frozenset(['in', 'out', 'groups'])]), ())
+    sites = []
+    for fn in repo.all_functions():
+        alias = {}
+        for n in ast.walk(fn.node):
+            if isinstance(n, ast.Assign) and len(n.targets) == 1 and \
+                    isinstance(n.targets[0], ast.Name):
+                alias[n.targets[0].id] = n.value
+        seen_inner = set()
+        for n in ast.walk(fn.node):
+            if id(n) in seen_inner:
+                continue
+            if isinstance(n, (ast.BoolOp, ast.Compare)):
+                if isinstance(n, ast.BoolOp) and not isinstance(n.op, ast.And):
+                    continue
+                names = {_dw_operand(x, alias) for x in ast.walk(n)}
+                if 'groups' in names and (names & {'in', 'out'}) and \
+                        any(isinstance(x, ast.Compare) and any(isinstance(o, ast.Eq) for o in x.ops)
+                            and _dw_operand(x.left, alias) is not None for x in ast.walk(n)):
+                    for x in ast.walk(n):
+                        seen_inner.add(id(x))
+                    sites.append((fn, n, dw_normal_form(n, alias)))
+    ctx.floor('R15d', 'depthwise tests in the library', len(sites), 8)
+    in_pattern = [s_ for s_ in sites if s_[0].module.name.endswith('cost.pattern')]
+    if not in_pattern:
+        raise AnalysisError('R15d: depthwise constraint of cost/pattern.py not found')
+    for fn, n, nf in sites:
+        ok = nf == full
+        where_ = f'{fn.module.relpath}:{n.lineno}'
+        label = (fn.cls.name + '.' if fn.cls else '') + fn.name
+        ctx.ob('R15d', f'depthwise test in {label} +{n.lineno - fn.node.lineno}', ok,
+               'in_channels == out_channels == groups' if ok else
+               f'"{ast.unparse(n)[:120]}" is not the library-wide depthwise definition '
+               f'in_channels == out_channels == groups (equalities: '
+               f'{sorted(sorted(c) for c in nf[0])}, other conditions: {list(nf[1])}): layers are '
+               f'classified as depthwise by one part of the library and not by another, so the '
+               f'lookup returns the depthwise model for layers that do not satisfy the depthwise '
+               f'pattern (or raises a conflict with another matching pattern)', where_)
+    for fn, n, nf in in_pattern:
+        reads = {x.id for st in fn.node.body for x in ast.walk(st)
+                 if isinstance(x, ast.Name) and isinstance(x.ctx, ast.Load)}
+        params = {a.arg for a in fn.node.args.args}
+        local = {x.id for x in ast.walk(fn.node) if isinstance(x, ast.Name) and
+                 isinstance(x.ctx, ast.Store)}
+        foreign = sorted(reads - params - local - {'all', 'any', 'len', 'int', 'float', 'tuple'})
+        ctx.ob('R15d', f'{fn.name} is a function of the spec only', not foreign,
+               'reads only its argument' if not foreign else
+               f'the constraint also reads {foreign}: the pattern a layer satisfies would depend '
+               f'on state outside the layer', f'{fn.module.relpath}:{fn.node.lineno}',
+               nontrivial=False)
+
+
 def run(ctx):
+    r15d(ctx)
     repo = ctx.repo
     ci = repo.cls('CostSpec')
     init, setitem, getitem = (_class_fn(ci, n) for n in ('__init__', '__setitem__', '__getitem__'))
